@@ -197,7 +197,7 @@ pub use tables::{BetFileInfo, BetTable, BlockEntry, BlockTable, HashEntry, HashT
 // Re-export crypto for CLI usage
 pub use crypto::{
     calculate_het_hashes, calculate_mpq_hashes, decrypt_block, decrypt_dword, encrypt_block,
-    hash_string, hash_type, jenkins_hash,
+    file_key, hash_string, hash_type, jenkins_hash,
 };
 
 // Re-export compression for testing
